@@ -5,6 +5,7 @@ Proof/KernelsBP — the in-word parenthesis kernels (`find_unmatched_close_in_wo
 import SuccinctlyVerif.Proof.Kernels
 namespace SV.Kernels
 open SV SV.KList SV.BP
+attribute [local simp] SV.Kernels.wordBits_length
 
 theorem wordBits_getElem (x : BitVec 64) (j : Nat) (h : j < (wordBits x).length) :
     (wordBits x)[j] = x.getLsbD j := by
